@@ -342,8 +342,9 @@ def _atoms(e: ast.AST) -> list:
             go(n.right)
         elif isinstance(n, ast.Compare):
             go(n.left)
-            for c in n.comparators:
-                go(c)
+            for op, c in zip(n.ops, n.comparators):
+                if not isinstance(op, (ast.In, ast.NotIn)):  # the container of a membership test is folded, not enumerated
+                    go(c)
         elif isinstance(n, ast.Constant):
             pass
         else:
@@ -386,6 +387,18 @@ def _ev(e: ast.AST, env: dict):
     if isinstance(e, ast.Compare):
         left = _ev(e.left, env)
         for op, c in zip(e.ops, e.comparators):
+            if isinstance(op, (ast.In, ast.NotIn)):
+                box = env.get("*fold*")
+                try:
+                    cont = box(c) if box is not None else None
+                except Exception:
+                    cont = None
+                if not isinstance(cont, (dict, list, tuple, set, frozenset)) or not all(isinstance(x, (int, str)) for x in cont):
+                    raise _Stuck
+                if (left in cont) != isinstance(op, ast.In):
+                    return False
+                left = None
+                continue
             if type(op) not in _CMP:
                 raise _Stuck
             right = _ev(c, env)
@@ -410,7 +423,11 @@ def discharged_finite(model: Model, g: FuncInfo, st: ast.Assert, find_block) -> 
         for a in _atoms(ex):
             atoms.setdefault(ast.dump(a), a)
     if not atoms:
-        return False
+        # nothing to enumerate: a test over constants and folded tables (`16 in _REQUIRED`) is decided as it stands
+        try:
+            return bool(_ev(st.test, {"*fold*": lambda c: Folder(model, g.module, g.cls).fold(c)}))
+        except _Stuck:
+            return False
     # the value set of an atom holds at any time (it collects every store in the package); a *guard* however speaks about the
     # moment it ran: it constrains the assert only if its atoms cannot change in between -- locals bound once and parameters
     # never rebound (value_set accepts no other names), and attributes only when nothing between the guard and the assert
@@ -452,6 +469,7 @@ def discharged_finite(model: Model, g: FuncInfo, st: ast.Assert, find_block) -> 
     try:
         for combo in itertools.product(*[sorted(sets[k]) for k in keys]):
             env = dict(zip(keys, combo))
+            env["*fold*"] = lambda c: Folder(model, g.module, g.cls).fold(c)
             if any(_ev(gd, env) for gd in usable_guards):
                 continue
             if not _ev(st.test, env):
